@@ -139,6 +139,37 @@ example :
     sortConfigBySelectorAndCreationTime [a, b, c] = [c, b, a] ∧
     sortConfigBySelectorAndCreationTime [b, c, a] = [c, b, a] := by decide
 
+/-! ### model.SortWorkloadsByCreationTime -/
+
+theorem wlLess_eq (a b : Wl) :
+    cmpOfLess wlLess a b = andThen (natCmp a.time b.time) (strCmp a.uid b.uid) := by
+  unfold cmpOfLess wlLess natCmp strCmp
+  by_cases h1 : a.time < b.time
+  · have h2 : a.time ≠ b.time := by omega
+    simp [h1, h2, andThen]
+  · by_cases h2 : a.time = b.time
+    · rcases str_trichotomy a.uid b.uid with ⟨c1, c2, c3⟩ | c | ⟨c1, c2, c3⟩
+      · simp [h2, c1, andThen]
+      · simp [h2, c, String.lt_irrefl, andThen]
+      · simp [h2, c1, c2, c3, andThen]
+    · have h3 : b.time < a.time := by omega
+      have h4 : b.time ≠ a.time := by omega
+      simp [h1, h2, h3, h4, andThen]
+
+/-- Workloads are ordered by (creation time, uid); the uid is unique. -/
+theorem cmp_total_workloads : TotalOnKey (cmpOfLess wlLess) (fun w : Wl => (w.time, w.uid)) :=
+  ((natCmp_total Wl.time).lex (strCmp_total Wl.uid)).congr (fun a b => (wlLess_eq a b).symm)
+
+theorem sortWorkloads_canonical {sort : List Wl → List Wl} (hs : IsSort wlLess sort) {l₁ l₂ : List Wl}
+    (hd : KeysDistinct (fun w : Wl => w.uid) l₁) (p : l₁.Perm l₂) : sort l₁ = sort l₂ :=
+  sort_canonical_less cmp_total_workloads hs
+    (fun a b ha hb hne e => hd a b ha hb hne (congrArg Prod.snd e)) p
+
+theorem sortWorkloadsByCreationTime_perm {l₁ l₂ : List Wl}
+    (hd : KeysDistinct (fun w : Wl => w.uid) l₁) (p : l₁.Perm l₂) :
+    sortWorkloadsByCreationTime l₁ = sortWorkloadsByCreationTime l₂ :=
+  sortWorkloads_canonical (isort_isSort_less cmp_total_workloads) hd p
+
 /-! ### EndpointShards.Keys -/
 
 theorem shardLess_eq (a b : ShardKey) :
